@@ -371,6 +371,8 @@ func RunProperty(prop *Property, tier string, seed int, onlyRule string) *Result
 		}
 		res.Exit = 1
 		if NoReplay {
+			res.Lines = append(res.Lines, fmt.Sprintf("VIOLATION property=%s replay=-", prop.ID))
+			res.Lines = append(res.Lines, fmt.Sprintf("  %s %s [%s] %s at %s: %s", o.Verdict, o.Rule, o.Config, o.Key, o.Pos, o.Detail))
 			continue
 		}
 		os.MkdirAll(vdir, 0o755)
